@@ -38,6 +38,11 @@ func gTemplates() []gTemplate {
 		{"'a' X / X 'b'", func(x string) *ag.Expr { return ag.A(ag.S(a(), X(x)), ag.S(X(x), lit("b"))) }},
 		{"&{} X", func(x string) *ag.Expr { return ag.S(ag.P(1), X(x)) }},
 		{"(X)* in <>", func(x string) *ag.Expr { return ag.S(ag.U(ag.Cap, ag.U(ag.Star, ag.S(X(x), a()))), a()) }},
+		// a repetition that must run at least once consumes only if its operand does
+		{"('a'?)+ X", func(x string) *ag.Expr { return ag.S(ag.U(ag.Plus, ag.U(ag.Opt, a())), X(x)) }},
+		{"'a'+ X", func(x string) *ag.Expr { return ag.S(ag.U(ag.Plus, a()), X(x)) }},
+		{"(&'a')+ X 'b'", func(x string) *ag.Expr { return ag.S(ag.U(ag.Plus, ag.U(ag.And, a())), X(x), lit("b")) }},
+		{"<'a'*>+ X", func(x string) *ag.Expr { return ag.S(ag.U(ag.Plus, ag.U(ag.Cap, ag.U(ag.Star, a()))), X(x)) }},
 	}
 }
 
